@@ -11,6 +11,7 @@ TARGETS = [
     "C04:int:verde.trend:Trend.jacobian",
     "C04:int:verde.trend:Trend.fit",
     "C04:int:verde.spline:Spline.fit",
+    "C04:int:verde.vector:VectorSpline2D.fit",
     "verde.base.utils:n_1d_arrays",
     "verde.base.utils:check_fit_input",
     "contracts.layout_c04:lemma_reshape_trend",
@@ -20,7 +21,7 @@ TARGETS = [
 MIN_OBLIGATIONS = {"quick": 60, "thorough": 60}
 EXPLANATION = (
     "MIXED, claimed as 'other'. Deductive: (1) DTYPE - the C03/C02 contracts of Spline.predict, VectorSpline2D.predict, Trend.predict, "
-    "Trend.jacobian, Trend.fit and Spline.fit are re-verified with integer-kind coordinate/data arrays under numpy's modelled casting "
+    "Trend.jacobian, Trend.fit, Spline.fit and VectorSpline2D.fit (components of different kinds) are re-verified with integer-kind coordinate/data arrays under numpy's modelled casting "
     "rules (in-place ops obey same_kind; item assignment truncates): the predictions / design matrices must equal the real-valued "
     "formulas - these are the obligations that failed before the fix: commit (cast error in predict, truncated design matrix in "
     "Trend.fit). (2) SHAPE - n_1d_arrays / check_fit_input contracts (first n inputs raveled in C order, weights raveled with the data) "
